@@ -25,8 +25,8 @@ func (w *zzRW) Message() *pool.Message     { return nil }
 
 // literals with regular-expression metacharacters (in a variable-free pattern, after the last variable, before a
 // variable) must be matched literally
-var zzPatterns = []string{"/a", "/a/b", "/a/{id}", "/{x}/b", "/a/{n:[0-9]+}", "/a/{id}/c", "/", "/a.b", "/{x}/v1.0", "/d.e/{id}"}
-var zzPaths = []string{"/a", "/a/b", "/a/7", "/x/b", "/c", "", "/a/{id}", "/a/7/c", "/a/b/", "/a.b", "/axb", "/q/v1.0", "/q/v1x0", "/d.e/7", "/dxe/7"}
+var zzPatterns = []string{"/a", "/a/b", "/a/{id}", "/{x}/b", "/a/{n:[0-9]+}", "/a/{id}/c", "/", "/a.b", "/{x}/v1.0", "/d.e/{id}", "/a/{m:[0-9]*}"}
+var zzPaths = []string{"/a", "/a/b", "/a/7", "/x/b", "/c", "", "/a/{id}", "/a/7/c", "/a/b/", "/a.b", "/axb", "/q/v1.0", "/q/v1x0", "/d.e/7", "/dxe/7", "/a/"}
 
 func zzSplit(s string) []string {
 	var out []string
@@ -58,7 +58,9 @@ func zzMatch(pattern, path string) (bool, map[string]string) {
 					break
 				}
 			}
-			if x == "" {
+			// a variable takes at least one character - unless its own expression allows none ([0-9]*)
+			mayBeEmpty := digits && inner[len(inner)-1] == '*'
+			if x == "" && !mayBeEmpty {
 				return false, nil
 			}
 			if digits {
@@ -121,6 +123,11 @@ func zzC17_dispatch() {
 	req := &Message{Message: pool.NewMessage(context.Background()), RouteParams: new(RouteParams)}
 	if path != "" {
 		_ = req.SetPath(path)
+		if len(path) > 1 && path[len(path)-1] == '/' {
+			// SetPath drops empty segments; a peer can still send one: an empty Uri-Path option at the end
+			req.AddOptionString(message.URIPath, "")
+			symCover("empty-last-segment")
+		}
 	}
 	eff, _ := req.Options().Path()
 	if eff == "" {
